@@ -229,6 +229,19 @@ def const(node: ast.AST):
     raise ValueError(norm(node))
 
 
+def module_const(mi, node: ast.AST):
+    """const(), additionally following a Name to its single module-level assignment of a constant expression"""
+    if isinstance(node, ast.Name):
+        vals = []
+        for st in mi.tree.body:
+            tg = st.targets[0] if isinstance(st, ast.Assign) and len(st.targets) == 1 else (st.target if isinstance(st, ast.AnnAssign) and st.value is not None else None)
+            if isinstance(tg, ast.Name) and tg.id == node.id:
+                vals.append(st.value)
+        if len(vals) == 1:
+            return const(vals[0])
+    return const(node)
+
+
 def is_const(node: ast.AST, value=...) -> bool:
     try:
         v = const(node)
